@@ -778,7 +778,9 @@ class Fxp():
             val = val.astype(np.complex128)
 
         # a list of python integers beyond 64 bits is turned into floats by numpy: keep the integers exact
-        if isinstance(_val_in, (int, list, tuple)) and val.dtype.kind in 'fu' and val.size > 0 and np.max(np.abs(val)) >= 2**63:
+        # (so is a python integer beside a NumPy unsigned one: the pair is promoted to float64 whatever their size)
+        if isinstance(_val_in, (int, list, tuple)) and val.dtype.kind in 'fu' and val.size > 0 and \
+            (np.max(np.abs(val)) >= 2**63 or (val.dtype.kind == 'f' and np.max(np.abs(val)) >= 2**53)):
             _val_obj = np.array(_val_in, dtype=object)
             if all(isinstance(v, (int, np.integer)) for v in _val_obj.flatten()):
                 val = np.array([int(v) for v in _val_obj.flatten()], dtype=object).reshape(_val_obj.shape)    # (NumPy integers among them included)
